@@ -132,9 +132,10 @@ def assemble(unit_path, variant=None):
         if kind == "fn":
             ann = p["ann"]
             qual = p["qual"]
-            if variant and variant[0] == "carve" and qual in variant[1]:
-                ann["requires"] = (ann.get("requires") or "") + "\n        !(" + variant[1][qual] + "),\n"
-            if variant and variant[0] == "vacuity" and (variant[1] is None or variant[1] == qual) and not ann.get("external_body"):
+            cq = ann.get("seg_name") or ann.get("rename") or qual
+            if variant and variant[0] == "carve" and cq in variant[1]:
+                ann["requires"] = (ann.get("requires") or "") + "\n        !(" + variant[1][cq] + "),\n"
+            if variant and variant[0] == "vacuity" and (variant[1] is None or variant[1] in (qual, cq)) and not ann.get("external_body"):
                 ann["head"] = (ann.get("head") or "") + "\n    proof { /*@VAC*/ assert(false); }\n"
             if ann.get("seg_from"):
                 text, lmap, src, log, labels, it = X.extract_segment(p["relpath"], qual, ann)
